@@ -1,0 +1,186 @@
+//go:build verif
+
+package cmd
+
+import (
+	"context"
+	"log/slog"
+	"net/url"
+	"os"
+	"syscall"
+
+	"github.com/AdguardTeam/AdGuardDNS/internal/agd"
+	"github.com/AdguardTeam/AdGuardDNS/internal/agdcache"
+	"github.com/AdguardTeam/AdGuardDNS/internal/debugsvc"
+	"github.com/AdguardTeam/AdGuardDNS/internal/dnsmsg"
+	"github.com/AdguardTeam/AdGuardDNS/internal/errcoll"
+	"github.com/AdguardTeam/AdGuardDNS/internal/filter"
+	"github.com/AdguardTeam/AdGuardDNS/internal/metrics"
+	"github.com/AdguardTeam/AdGuardDNS/internal/querylog"
+	"github.com/AdguardTeam/golibs/logutil/slogutil"
+	"github.com/AdguardTeam/golibs/osutil"
+	"github.com/AdguardTeam/golibs/service"
+	"github.com/prometheus/client_golang/prometheus"
+)
+
+// Verification hooks for property C20, third part: the start-up steps of
+// [Main] that need no backend, run by the unchanged builder methods in the
+// order of [Main] over a parsed and validated configuration file, and the
+// shutdown of everything they have registered.
+
+// verifC20Notifier is a signal notifier that remembers the channel of the
+// signal handler instead of subscribing to the signals of the process.
+type verifC20Notifier struct {
+	c chan<- os.Signal
+}
+
+// type check
+var _ osutil.SignalNotifier = (*verifC20Notifier)(nil)
+
+// Notify implements the [osutil.SignalNotifier] interface for
+// *verifC20Notifier.
+func (n *verifC20Notifier) Notify(c chan<- os.Signal, _ ...os.Signal) { n.c = c }
+
+// Stop implements the [osutil.SignalNotifier] interface for *verifC20Notifier.
+func (n *verifC20Notifier) Stop(_ chan<- os.Signal) {}
+
+// VerifC20Started is what the start-up steps have produced.
+type VerifC20Started struct {
+	b        *builder
+	notifier *verifC20Notifier
+
+	// Groups are the converted server groups.
+	Groups []*agd.ServerGroup
+
+	// TicketPaths is the result of [serverGroups.collectSessTicketPaths].
+	TicketPaths []string
+
+	// LinkedIPTargetURL, if not nil, is given to the builder as the value of
+	// LINKED_IP_TARGET_URL.  It is an input.
+	LinkedIPTargetURL *url.URL
+
+	// Stage is the name of the builder method that runs or has failed.
+	Stage string
+
+	// ProfilesEnabled is the builder's summary of the server groups.
+	ProfilesEnabled bool
+
+	// WebPresent is true if a web service has been created.
+	WebPresent bool
+
+	// QueryLogFile is true if the builder selects the file-based query log.
+	QueryLogFile bool
+
+	// TLSClones is the number of TLS configurations that the TLS manager has
+	// handed to the servers.
+	TLSClones int
+}
+
+// VerifC20SessTicketPaths returns the session ticket paths that
+// [builder.initTLSManager] gives to the TLS manager.
+func (v *VerifC20Conf) VerifC20SessTicketPaths() (paths []string) {
+	return v.c.ServerGroups.collectSessTicketPaths()
+}
+
+// VerifC20StartUp runs, over the parsed and validated configuration, the
+// start-up steps of [Main] that need neither the backend nor fixed sockets:
+// the filtering groups (against a filter index that contains indexIDs), and
+// the unchanged initAccess, initBindToDevice, initMsgConstructor,
+// initTLSManager, initServerGroups, initTicketRotator, initGRPCMetrics,
+// initWeb and queryLog.  st.Stage names the step that runs, also when it
+// panics; err is the error of that step.
+func (v *VerifC20Conf) VerifC20StartUp(
+	ctx context.Context,
+	st *VerifC20Started,
+	e *VerifC20Env,
+	l *slog.Logger,
+	errColl errcoll.Interface,
+	ns string,
+	indexIDs []string,
+) (err error) {
+	st.notifier = &verifC20Notifier{}
+	b := &builder{
+		baseLogger:     l,
+		cacheManager:   agdcache.NewDefaultManager(),
+		cloner:         dnsmsg.NewCloner(metrics.ClonerStat{}),
+		conf:           v.c,
+		debugRefrs:     debugsvc.Refreshers{},
+		env:            e.toInternal(),
+		errColl:        errColl,
+		logger:         l.With(slogutil.KeyPrefix, "builder"),
+		mtrcNamespace:  ns,
+		promRegisterer: prometheus.NewRegistry(),
+		sigHdlr: service.NewSignalHandler(&service.SignalHandlerConfig{
+			SignalNotifier:  st.notifier,
+			Logger:          l,
+			ShutdownTimeout: shutdownTimeout,
+		}),
+	}
+	st.b = b
+	b.env.LinkedIPTargetURL = verifC20URL(st.LinkedIPTargetURL)
+
+	st.Stage = "filtering_groups"
+	strg := &verifC20Storage{ids: map[filter.ID]struct{}{}}
+	for _, id := range indexIDs {
+		strg.ids[filter.ID(id)] = struct{}{}
+	}
+
+	b.filteringGroups, err = v.c.FilteringGroups.toInternal(strg)
+	if err != nil {
+		return err
+	}
+
+	for _, step := range []struct {
+		f    func(ctx context.Context) (err error)
+		name string
+	}{
+		{name: "access", f: b.initAccess},
+		{name: "bindtodevice", f: b.initBindToDevice},
+		{name: "messages", f: b.initMsgConstructor},
+		{name: "tls_manager", f: b.initTLSManager},
+		{name: "server_groups", f: b.initServerGroups},
+		{name: "ticket_rotator", f: b.initTicketRotator},
+		{name: "grpc_metrics", f: b.initGRPCMetrics},
+		{name: "web", f: b.initWeb},
+	} {
+		st.Stage = step.name
+		err = step.f(ctx)
+		if err != nil {
+			return err
+		}
+	}
+
+	st.Stage = "query_log"
+	_, isEmpty := b.queryLog().(querylog.Empty)
+	st.QueryLogFile = !isEmpty
+
+	st.Stage = "ticket_paths"
+	st.TicketPaths = v.c.ServerGroups.collectSessTicketPaths()
+
+	st.Stage = ""
+	st.Groups = b.serverGroups
+	st.ProfilesEnabled = b.profilesEnabled
+	st.WebPresent = b.webSvc != nil
+	for _, g := range b.serverGroups {
+		for _, s := range g.Servers {
+			if s.TLS != nil && s.TLS.Default != nil {
+				st.TLSClones++
+			}
+		}
+	}
+
+	return nil
+}
+
+// VerifC20Shutdown delivers a termination signal to the signal handler of the
+// builder and lets [builder.handleSignals] shut down everything that the
+// start-up steps have registered.  code is the exit code of the program.
+func (st *VerifC20Started) VerifC20Shutdown(ctx context.Context) (code int) {
+	if st.b == nil || st.notifier == nil || st.notifier.c == nil {
+		return -1
+	}
+
+	st.notifier.c <- syscall.SIGTERM
+
+	return int(st.b.handleSignals(ctx))
+}
